@@ -5,6 +5,7 @@ package main
 // (bit-vectors of the Go width). Both are exact encodings of Go arithmetic.
 
 import (
+	"strconv"
 	"fmt"
 	"math/big"
 	"regexp"
@@ -418,10 +419,55 @@ func Eq(a, b *Term) *Term {
 	if a.IsConst() && b.IsConst() {
 		return BoolT(a.Val.Cmp(b.Val) == 0)
 	}
-	if a.id > b.id {
+	// canonical argument order that does not depend on when the terms were created (ids differ
+	// from run to run with the set of functions verified; solver run times are sensitive to it)
+	if termLess(b, a, 0) {
 		a, b = b, a
 	}
 	return TS.mk(OEq, BoolSort, "", nil, a, b)
+}
+
+// termLess: a structural order on terms (constants first, then by size, operator, name, value,
+// arguments); ids only break ties between structurally equal prefixes deeper than 8 levels.
+func termLess(a, b *Term, depth int) bool {
+	if a == b {
+		return false
+	}
+	if a.IsConst() != b.IsConst() {
+		return a.IsConst() // constants first: the orientation the solvers were seen to cope with best
+	}
+	if a.size != b.size {
+		return a.size < b.size
+	}
+	if a.Op != b.Op {
+		return a.Op < b.Op
+	}
+	if a.Name != b.Name {
+		// fresh symbols carry a global counter ("x!17"): compare stems, then the counters as
+		// numbers (their order is the creation order within the function, whatever the offset)
+		sa, na := splitFresh(a.Name)
+		sb, nb := splitFresh(b.Name)
+		if sa != sb {
+			return sa < sb
+		}
+		return na < nb
+	}
+	if a.Val != nil && b.Val != nil {
+		if c := a.Val.Cmp(b.Val); c != 0 {
+			return c < 0
+		}
+	}
+	if len(a.Args) != len(b.Args) {
+		return len(a.Args) < len(b.Args)
+	}
+	if depth < 8 {
+		for i := range a.Args {
+			if a.Args[i] != b.Args[i] {
+				return termLess(a.Args[i], b.Args[i], depth+1)
+			}
+		}
+	}
+	return a.id < b.id
 }
 
 func Ne(a, b *Term) *Term { return Not(Eq(a, b)) }
@@ -1493,4 +1539,16 @@ func relConds(pcs []*Term) []*Term {
 		out[i] = And(r...)
 	}
 	return out
+}
+
+func splitFresh(name string) (string, int) {
+	i := strings.LastIndex(name, "!")
+	if i < 0 {
+		return name, 0
+	}
+	n, err := strconv.Atoi(name[i+1:])
+	if err != nil {
+		return name, 0
+	}
+	return name[:i], n
 }
